@@ -289,7 +289,11 @@ def emit(tables, cps, dps):
 def tables_json():
     """build+run the dumper against the current tree (cached per tree hash)."""
     bd = build.build_dir()
-    cache = os.path.join(bd, "gen_tables.json")
+    hh = hashlib.sha256()
+    for fp in (os.path.join(VERIF, "harness", "gen_tables.c"), os.path.abspath(__file__)):
+        with open(fp, "rb") as fh:
+            hh.update(fh.read())
+    cache = os.path.join(bd, "gen_tables-%s.json" % hh.hexdigest()[:10])
     if os.path.exists(cache):
         with open(cache) as f:
             return json.load(f)
@@ -303,6 +307,13 @@ def tables_json():
                      extra=["-I" + inc, "-DZV_GEN_%s" % hashlib.sha256(open(os.path.join(inc, "gen_params.h"), "rb").read()).hexdigest()[:8]])
     out = subprocess.run([exe], stdout=subprocess.PIPE, text=True, check=True).stdout
     tables = json.loads(out)
+    # constants private to a .c file: taken by regex from the source text
+    for fn, names in (("lib/compress/zstd_compress.c", ["ZSTD_HASHLOG3_MAX"]),
+                      ("lib/compress/zstd_ldm.c", ["LDM_BUCKET_SIZE_LOG", "LDM_MIN_MATCH_LENGTH", "LDM_HASH_RLOG"])):
+        src = read(fn)
+        for nm in names:
+            m = re.search(r"#\s*define\s+%s\s+(\d+)" % nm, src)
+            tables[nm] = int(m.group(1)) if m else 0
     with open(cache + ".tmp", "w") as f:
         json.dump(tables, f)
     os.replace(cache + ".tmp", cache)
